@@ -315,8 +315,8 @@ static cfg_opt_t *cfg_getopt_secidx(cfg_t *cfg, const char *name,
 			}
 
 			i = strtol(title, &endptr, 0);
-			if (*endptr != '\0')
-				i = -1;
+			if (*endptr != '\0' || i < 0 || (unsigned long)i >= cfg_opt_size(opt))
+				i = -1;	/* not a number, or no such instance */
 		} while(0);
 
 		if (index)
